@@ -76,16 +76,24 @@ package server
 //@   modifies trace
 //@   ensures trace == trace.ev(old(trace), "recv", server.closed)
 
-// the goroutine spawned by SpawnJob: waits for the stop request, runs shutdown to completion, only then signals closed
+// the goroutine spawned by SpawnJob: waits for the stop request, runs shutdown to completion, then waits until start
+// has returned (a server whose listener was opened while the stop was being processed closes it before ListenAndServe
+// returns — without this wait the address can still be bound when AwaitStop returns), and only then signals closed
 //@ func SpawnJob.go:1
 //@   property C14
 //@   modifies trace
-//@   ensures trace == trace.ev(trace.ev(trace.ev(old(trace), "recv", stop), "call", shutdown), "close", closed)
+//@   ensures trace == trace.ev(trace.ev(trace.ev(trace.ev(old(trace), "recv", stop), "call", shutdown), "recv", finished), "close", closed)
+
+// the goroutine that runs start: signals finished once start has returned, and not before
+//@ func SpawnJob.go:2
+//@   property C14
+//@   modifies trace
+//@   ensures trace == trace.ev(trace.ev(old(trace), "call", start), "close", finished)
 
 //@ func SpawnJob
 //@   property C14
 //@   modifies trace
-//@   ensures trace.count(trace, "go-literal") == trace.count(old(trace), "go-literal") + 1
+//@   ensures trace.count(trace, "go-literal") == trace.count(old(trace), "go-literal") + 2
 //@   lemmas trace_count
 
 // shutdown of a combined job: every job is asked to stop before any is awaited, and all are awaited
